@@ -295,6 +295,38 @@ func runC19(c *Check, w *World) {
 			}
 		}
 	}
+	// the request body is decoded as a whole: json.Unmarshal(ctx.PostBody(), …) rejects trailing data, a second
+	// value, an unbalanced bracket; a stream decoder (json.NewDecoder(...).Decode) stops after the first value and
+	// answers 200 to a syntactically broken body
+	nBody := 0
+	for _, f := range w.ModuleFuncs(ApiPath) {
+		EachInstr(f, func(in ssa.Instruction) {
+			cl, ok := in.(*ssa.Call)
+			if !ok || !strings.HasSuffix(CalleeName(cl.Common()), "RequestCtx).PostBody") {
+				return
+			}
+			nBody++
+			okUse := true
+			var other string
+			if refs := cl.Referrers(); refs != nil {
+				for _, r := range *refs {
+					switch x := r.(type) {
+					case *ssa.DebugRef:
+					case ssa.CallInstruction:
+						if n := CalleeName(x.Common()); !(n == "encoding/json.Unmarshal" && len(x.Common().Args) == 2 && x.Common().Args[0] == ssa.Value(cl)) {
+							okUse, other = false, n
+						}
+					default:
+						okUse, other = false, fmt.Sprintf("%T", r)
+					}
+				}
+			}
+			c.Decide(okUse, "R19.4", FuncName(f), "body-decoded-whole", "the request body goes to json.Unmarshal as a whole", "the request body is handed to "+other+" instead of json.Unmarshal: a body that is not one complete JSON value can be accepted", w.InstrPos(in))
+		})
+	}
+	if nBody == 0 {
+		c.Unk("R19.4", "api", "body-decoded-whole", "no handler reads the request body", "")
+	}
 	// router default 404
 	def404 := false
 	EachInstr(rf, func(in ssa.Instruction) {
